@@ -229,6 +229,35 @@ func c09(args []string) error {
 			}
 			s2 = randSeqOver(alpha, r.Intn(3)) + string(m) + randSeqOver(alpha, r.Intn(3))
 		}
+		if r.Intn(3) == 0 {
+			// a border of the matrix carries the alignment: one to three residues against a long sequence, cheap
+			// extensions, strong matches (a gap running along the first row / column must survive a better match)
+			// (only a matrix with unequal match scores can make a weaker match overwrite a running gap)
+			sc = []sch{{true, 0, 0, -3, -0.5}, {true, 0, 0, -4, -1}, {true, 0, 0, -2.5, -0.5}, {true, 0, 0, -2, -1}, {true, 0, 0, -5, -0.5}}[r.Intn(5)]
+			alpha = []string{"WWWCFYH", "WFYH", "ILVMFY", "ACGTRYKMN", "FYWHDEKR"}[r.Intn(5)]
+			s1 = randSeqOver(alpha, 2+r.Intn(2))
+			s2 = randSeqOver(alpha, 6+r.Intn(10))
+			if r.Intn(2) == 0 {
+				s1, s2 = s2, s1
+			}
+		}
+		if r.Intn(10) == 0 {
+			// the same, constructed: X.. against ..X (gap) Y' (gap) Z.. where Y' scores a little against X: on the border the
+			// weak match Y' overwrites the running gap, which remains the better way on to Z
+			pairs := []string{"FY", "YF", "WY", "YW", "YH", "HY", "IV", "VI", "IL", "LI", "LM", "ML", "FW", "WF"}
+			pq := pairs[r.Intn(len(pairs))]
+			z := string("WCHP"[r.Intn(4)])
+			fill := func(n int) string { return randSeqOver("GDKN", n) }
+			s1 = string(pq[0]) + z
+			s2 = fill(r.Intn(2)) + string(pq[0]) + fill(1+r.Intn(2)) + string(pq[1]) + fill(1+r.Intn(3)) + z + fill(r.Intn(2))
+			if r.Intn(3) == 0 {
+				s1 = s1 + string("WCHP"[r.Intn(4)])
+			}
+			sc = []sch{{true, 0, 0, -3, -0.5}, {true, 0, 0, -2.5, -0.5}, {true, 0, 0, -4, -0.5}, {true, 0, 0, -2, -0.5}}[r.Intn(4)]
+			if r.Intn(2) == 0 {
+				s1, s2 = s2, s1
+			}
+		}
 		if r.Intn(25) == 0 {
 			s2 = s2 + "!" // outside every alphabet: error expected
 		}
